@@ -350,7 +350,7 @@ func c22Run(rep *mc.Report, acc *c22Acc, c *c22Case) {
 	if len(T) == 0 {
 		acc.kinds["empty"]++
 		acc.outcomes["empty"] = struct{}{}
-		future := c.start-maxOff > c.now
+		future := c.start > c.now // (a start after now with shifted data in the past may or may not be answered: not judged)
 		if c.end > c.start && c.step >= 0 && !future && (!point || c.p.extend) {
 			viol("empty-axis", "no points although the range is not empty and not in the future", &ts)
 		}
@@ -460,7 +460,12 @@ func c22Run(rep *mc.Report, acc *c22Acc, c *c22Case) {
 	}
 	lastStep := L[len(L)-1].Step
 	if c22RefNext(T[len(T)-1], lastStep, z) < c.end {
-		viol("end-not-covered", fmt.Sprintf("last point %d + step %d ends before requested end", T[len(T)-1], lastStep), &ts)
+		sig := "end-not-covered"
+		if lastStep == c22Month && maxOff != 0 {
+			// months are counted on the range shifted by the offset, points are generated on the unshifted one
+			sig = "monthly-axis-with-offset-shorter-than-range"
+		}
+		viol(sig, fmt.Sprintf("last point %d + step %d ends before requested end", T[len(T)-1], lastStep), &ts)
 	}
 	// --- per-level ranges handed to storage
 	checkLODs := func(m *format.MetricMetaValue, off int64) {
@@ -774,6 +779,7 @@ func TestVerifC22(t *testing.T) {
 			{day - 40*c22Day + 17, day + 100, day + 100},
 			{may, sep + 1, sep + c22Day},
 			{day + 3, day + 4, day + 4},
+			{may - 1, may + 1, may + 2},
 		}
 		for _, t := range z.dst {
 			if t > day-400*c22Day && t < day+400*c22Day {
@@ -784,7 +790,6 @@ func TestVerifC22(t *testing.T) {
 		if thorough {
 			ranges = append(ranges,
 				rng{day - 1, day + c22Week + 1, day + 10*c22Day},
-				rng{may - 1, may + 1, may + 2},
 				rng{day - 400*c22Day, day, day},
 				rng{day + 59, day + 3601, day + 3600},
 				rng{0, day, day},
